@@ -261,11 +261,19 @@ class VCluster:
         self.log("spawn", pid, kind, host)
         return p
 
+    def members(self, b):
+        return [x for x in [b.get("node")] + list(b.get("workers", ())) if x is not None]
+
+    def _batch_maybe_ended(self, b):
+        """srun returns (and the scheduler drops the job) when the last node's task has ended"""
+        if b["state"] == "running" and not any(self.procs[m].state == "ready" for m in self.members(b)):
+            b["state"] = "ended"
+            if b.get("workers"):
+                self.log("batchended", b["batch"], b.get("node"))
+
     def _on_exit(self, p):
-        if p.kind == "node" and p.hpc_id in self.slurm:
-            b = self.slurm[p.hpc_id]
-            if b["state"] == "running":
-                b["state"] = "ended"
+        if p.kind in ("node", "worker") and p.hpc_id in self.slurm:
+            self._batch_maybe_ended(self.slurm[p.hpc_id])
 
     def step(self, pid):
         """run process pid to its next yield point"""
@@ -288,13 +296,13 @@ class VCluster:
         p.state = "dead"
         self.log("kill", pid, p.kind, p.at[0], os.path.basename(str(p.at[1])))
         # kill fake job processes of a node
-        if p.kind == "node":
+        if p.kind in ("node", "worker"):
             for jp in self.jobprocs:
                 if jp.node == pid and jp.returncode is None:
                     jp.exited = None
             b = self.slurm.get(p.hpc_id)
-            if b and b["state"] == "running":
-                b["state"] = "ended"
+            if b:
+                self._batch_maybe_ended(b)
         # a dead process's children keep running (orphans), as on a real system
 
     # ------------------------------------------------------------------ enabledness
@@ -414,7 +422,8 @@ class VCluster:
                 vc.yield_point("START", name)
                 jp = FakeJobProc(vc, p.pid, name, list(cmd), dict(env or {}), stdout, stderr)
                 vc.jobprocs.append(jp)
-                vc.log("start", p.pid, p.batch, name, tuple(cmd))
+                # a worker node of a multi-node allocation runs its own copy of every job: logged under its own kind
+                vc.log("wstart" if p.kind == "worker" else "start", p.pid, p.batch, name, tuple(cmd))
                 return jp
 
         patch(acc, "subprocess", JobSub)
@@ -430,13 +439,13 @@ class VCluster:
         def die_here(p):
             p.killed = True
             p.state = "dead"
-            if p.kind == "node":
+            if p.kind in ("node", "worker"):
                 for jp in vc.jobprocs:
                     if jp.node == p.pid and jp.returncode is None:
                         jp.exited = None
                 b = vc.slurm.get(p.hpc_id)
-                if b and b["state"] == "running":
-                    b["state"] = "ended"
+                if b:
+                    vc._batch_maybe_ended(b)
             vc.back.set()
             vc._park()
 
@@ -752,7 +761,8 @@ class VCluster:
             elif b["state"] == "running":
                 b["state"] = "cancelled"
                 if b["node"] is not None:
-                    self.kill(b["node"])
+                    for m in self.members(b):
+                        self.kill(m)
                     self.slurm[i]["state"] = "cancelled"
             return 0, "", ""
         if c0 == "jade" and len(command) > 1 and command[1] == "try-submit-jobs":
@@ -799,6 +809,8 @@ class VCluster:
             info.update(argv=argv, jobs=jobs, groups=groups, account=acct, name=re.search(r"--job-name=(\S+)", text).group(1))
             tm = re.search(r"^#SBATCH --time=(\S+)", text, flags=re.M)
             pt = re.search(r"^#SBATCH --partition=(\S+)", text, flags=re.M)
+            nn = re.search(r"^#SBATCH --nodes=(\d+)", text, flags=re.M)
+            info["nnodes"] = int(nn.group(1)) if nn else 1
             npr = [a.split("=", 1)[1] for a in argv if a.startswith("--num-parallel-processes-per-node=")]
             info.update(time=tm.group(1) if tm else None, partition=pt.group(1) if pt else None,
                         nprocs=int(npr[0]) if npr else None)
@@ -815,7 +827,7 @@ class VCluster:
         hid = self.next_hpc
         self.next_hpc += 1
         self.slurm[hid] = {"batch": bidx, "argv": argv, "state": "pending", "node": None, "name": info.get("name", "?"),
-                           "jobs": jobs, "word": None, "odd": None}
+                           "jobs": jobs, "word": None, "odd": None, "nnodes": info.get("nnodes", 1), "workers": []}
         self.log("sbatch", p.pid, bidx, hid, info.get("jobs", ()), info.get("groups", ()), info.get("account"))
         # a busy controller: sbatch warns on stderr, retries by itself and then succeeds (exit 0, id printed) — every
         # fourth accepted submission; what is on stderr of a successful sbatch must not matter
@@ -900,6 +912,17 @@ class VCluster:
         b["odd"] = None            # released by the scheduler: RUNNING
         b["node"] = p.pid
         self.log("startbatch", hid, b["batch"], p.pid)
+        # multi-node allocation (#SBATCH --nodes=N, N >= 2): `srun` starts the run script on every node of the
+        # allocation.  Node 0 is the manager node (kind "node", as before); the others are kind "worker": they run the
+        # same jade-internal run-jobs with SLURM_NODEID=i on their own host.  The batch is listed by the scheduler
+        # until the last of them has ended.
+        for i in range(1, int(b.get("nnodes") or 1)):
+            wenv = dict(env, SLURM_NODEID=str(i))
+            w = self.spawn("worker", f"{host}w{i}", lambda: self._entry_node(b["argv"]), env=wenv)
+            w.batch = b["batch"]
+            w.hpc_id = hid
+            b["workers"].append(w.pid)
+            self.log("startworker", hid, b["batch"], w.pid, i)
         return p
 
     # state words of real SLURM (squeue %T / --Format state) that JADE's five-entry table does not know and
@@ -931,7 +954,8 @@ class VCluster:
             self.log("nodelost", hid, None)
         elif b["state"] == "running":
             self.log("nodelost", hid, b["node"])
-            self.kill(b["node"])
+            for m in self.members(b):          # a failed node takes the whole allocation down (SLURM default)
+                self.kill(m)
             b["state"] = "ended"
 
     def break_lock(self, path):
